@@ -88,13 +88,8 @@ class FIXContainer:
             DuplicatedTagError: when trying to set existing tag
             FIXMessageError: tag value is not convertible to int
         """
-        try:
-            # tag also might be an FTag enum (so cast to str first)
-            int(str(tag))
-        except ValueError:
-            raise FIXMessageError("Tags must be only integers")
-
-        t = str(tag)
+        # tag also might be an FTag enum (so cast to str first)
+        t = self._group_tag(tag)
 
         if _isclass(value):
             # Case for setting tags as errors (allow overwriting by Exception)
@@ -158,12 +153,12 @@ class FIXContainer:
 
     @staticmethod
     def _group_tag(tag) -> str:
-        # the same rule set() applies to plain tags
-        try:
-            int(str(tag))
-        except ValueError:
+        # the same rule set() applies to plain tags: decimal digits, nothing else that
+        #  int() would also take (sign, blanks, underscores, other scripts' digits)
+        t = str(tag)
+        if not (t.isascii() and t.isdigit()):
             raise FIXMessageError("Tags must be only integers")
-        return str(tag)
+        return t
 
     def add_group(self, tag: str | int, group: FIXContainer | dict, index: int = -1):
         """Add repeating group item to fix message.
